@@ -285,7 +285,7 @@ func modelPass1Chunk(trees []string, pairs [][2]string, outDir string, k int) ([
 	b.WriteString("Definition trees : list sx := [\n")
 	b.WriteString(strings.Join(trees, ";\n"))
 	b.WriteString("\n].\nDefinition R := Eval vm_compute in map (fun t => str_bytes (simplify1 t)) trees.\nPrint R.\n")
-	b.WriteString("Definition FRAG := Eval vm_compute in map (fun t => if in_fragment t && avoids_defects t && model_exact (simp_ast t) then 1%N else 0%N) trees.\nPrint FRAG.\n")
+	b.WriteString("Definition FRAG := Eval vm_compute in map (fun t => if in_fragment t && avoids_defects t then 1%N else 0%N) trees.\nPrint FRAG.\n")
 	b.WriteString("Definition pairs : list (sx * sx) := [\n")
 	for i, pr := range pairs {
 		if i > 0 {
@@ -1060,7 +1060,7 @@ Definition case_ok (k : case) : bool :=
       (* the certificate used with C11_same_meaning_sound: pattern tree vs tree of the final rewrite *)
       && Bool.eqb (match k_tree3 k with Some t3 => same_meaning t t3 | None => false end) (k_cert k)
       (* hypotheses of C11_simplify_sound_partial; where they hold and the certificate can be computed, it agrees *)
-      && Bool.eqb (in_fragment t && avoids_defects t && model_exact (simp_ast t)) (k_frag k)
+      && Bool.eqb (in_fragment t && avoids_defects t) (k_frag k)
   end.
 Definition cases : list case := [
 `
